@@ -17,9 +17,15 @@ static const int HB = WENCRY_VERIF_HBUF_SZ;
 static std::string S(long v) { return std::to_string(v); }
 
 // ---------------- C09 ----------------
+static unsigned g_noise = 0;
 static void real_aes(bool enc, const unsigned char *key, unsigned char *blk) {
   alignas(16) unsigned char k[16], b[16];
+  // every third call another cipher with a related key (one byte changed) is built and used just before: no effect allowed
+  if (++g_noise % 3 == 0) { alignas(16) unsigned char k0[16], b0[16] = {0}; memcpy(k0, key, 16); k0[(g_noise / 3) % 16] ^= (unsigned char)(1 + g_noise % 255); if (g_noise % 2) { encryaes e0(k0); e0.runaes_128bit(b0); } else { decryaes d0(k0); d0.runaes_128bit(b0); } }
   memcpy(k, key, 16); memcpy(b, blk, 16);
+  // the API takes byte pointers: every fourth call the key and the block live at addresses that are not multiples of 4 (or 16)
+  if (g_noise % 4 == 1) { alignas(16) static unsigned char raw[96]; unsigned ko = 1 + g_noise % 15, bo = 33 + (g_noise / 4) % 15; unsigned char *k2 = raw + ko, *b2 = raw + bo; memcpy(k2, key, 16); memcpy(b2, blk, 16);
+    if (enc) { encryaes e(k2); e.runaes_128bit(b2); } else { decryaes d(k2); d.runaes_128bit(b2); } memcpy(blk, b2, 16); return; }
   if (enc) { encryaes e(k); e.runaes_128bit(b); } else { decryaes d(k); d.runaes_128bit(b); }
   memcpy(blk, b, 16);
 }
@@ -53,6 +59,26 @@ static void suite_aes(Rng &rng) {
   for (int v = 0; v < 256; v++) { bytes b(16, (unsigned char)v); bytes k(16, (unsigned char)(255 - v)); aes_case(suite, k, b); }
   long n = tier_thorough() ? 100000 : 1500;
   for (long i = 0; i < n; i++) aes_case(suite, rng.buf(16), rng.buf(16));
+  // cipher objects are values: a copy (copy construction, assignment, container growth) must keep computing AES under ITS key after the
+  // original has been destroyed or rebuilt in place with another key, and a fresh object must not depend on objects created before it
+  for (int i = 0; i < (tier_thorough() ? 400 : 60); i++) {
+    bytes k1 = rng.buf(16), k2 = i % 3 == 0 ? k1 : rng.buf(16), blk = rng.buf(16);
+    if (i % 3 == 1) { k2 = k1; k2[1 + 2 * rng.below(8)] ^= (unsigned char)(1 << rng.below(8)); }     // differs in one odd-indexed byte only
+    if (i % 6 == 2) { k1[0] = 0; k2 = k1; k2[1 + rng.below(15)] ^= 0x40; }                            // equal up to and including a zero byte
+    alignas(16) unsigned char a1[16], a2[16], b[16]; memcpy(a1, k1.data(), 16); memcpy(a2, k2.data(), 16);
+    trace_case(suite, "object lifetime k1=" + hex(k1) + " k2=" + hex(k2) + " blk=" + hex(blk));
+    { alignas(16) static unsigned char store[sizeof(encryaes) + 64];
+      encryaes *orig = new (store) encryaes(a1); encryaes copy(*orig); orig->~encryaes(); memset(store, 0xA5, sizeof store); orig = new (store) encryaes(a2);
+      memcpy(b, blk.data(), 16); copy.runaes_128bit(b); emitM(suite, "aes e " + hex(k1) + " " + hex(blk), hex(b, 16));
+      memcpy(b, blk.data(), 16); orig->runaes_128bit(b); emitM(suite, "aes e " + hex(k2) + " " + hex(blk), hex(b, 16)); orig->~encryaes(); }
+    { alignas(16) static unsigned char store[sizeof(decryaes) + 64];
+      decryaes *orig = new (store) decryaes(a1); decryaes copy(*orig); orig->~decryaes(); memset(store, 0x5A, sizeof store); orig = new (store) decryaes(a2);
+      memcpy(b, blk.data(), 16); copy.runaes_128bit(b); emitM(suite, "aes d " + hex(k1) + " " + hex(blk), hex(b, 16));
+      memcpy(b, blk.data(), 16); orig->runaes_128bit(b); emitM(suite, "aes d " + hex(k2) + " " + hex(blk), hex(b, 16)); orig->~decryaes(); }
+    { std::vector<encryaes> v; v.reserve(1); v.emplace_back(a1); for (int g = 0; g < 5; g++) v.emplace_back(a2);      // growth relocates the elements
+      memcpy(b, blk.data(), 16); v[0].runaes_128bit(b); emitM(suite, "aes e " + hex(k1) + " " + hex(blk), hex(b, 16));
+      encryaes e2(a2); e2 = v[0]; memcpy(b, blk.data(), 16); e2.runaes_128bit(b); emitM(suite, "aes e " + hex(k1) + " " + hex(blk), hex(b, 16)); }
+  }
   // Gmul exhaustively for the seven constants the code uses
   static const int us[7] = {25, 1, 0, 223, 104, 238, 199};
   for (int u : us) for (int v = 0; v < 256; v++) {
@@ -137,6 +163,31 @@ static void suite_mode(Rng &rng) {
     if (!tier_thorough() && n > 6 && (n + t) % 5 != 0) continue;
     bytes all = rng.buf(16 * n); mode_case(suite, t, rng.buf(16), rng.buf(16), split_segs(rng, all));
   }
+  // streams with zero blocks and repeated blocks (first block zero, all zero, a block repeated, zero IV / zero key)
+  for (int t = 0; t <= 4; t++) for (int pat = 0; pat < 6; pat++) for (int n : {1, 2, 3, 5}) {
+    bytes all = rng.buf(16 * n), keyp = rng.buf(16), ivp = rng.buf(16);
+    if (pat == 0) std::fill(all.begin(), all.begin() + 16, 0);                    // first block zero
+    if (pat == 1) std::fill(all.begin(), all.end(), 0);                           // all blocks zero
+    if (pat == 2) for (int i = 16; i < 16 * n; i++) all[i] = all[i % 16];         // one block repeated
+    if (pat == 3) { std::fill(all.begin(), all.end(), 0); std::fill(ivp.begin(), ivp.end(), 0); }
+    if (pat == 4) { std::fill(keyp.begin(), keyp.end(), 0); std::fill(all.begin(), all.begin() + 16, 0); }
+    if (pat == 5) std::fill(all.begin(), all.end(), 0xFF);
+    mode_case(suite, t, keyp, ivp, split_segs(rng, all));
+  }
+  // several stream objects made by ONE factory and used alternately (as the pipeline's T workers do): each must behave as if alone
+  for (int rep = 0; rep < (tier_thorough() ? 200 : 30); rep++) {
+    int t = rep % 5, n = 2 + rng.below(3), nb = 1 + rng.below(5); bool enc = rng.below(2);
+    bytes keyp = rng.buf(16), ivp = rng.buf(16);
+    if (rep % 7 == 0) std::fill(ivp.begin() + 8, ivp.end(), 0xFF);
+    alignas(16) unsigned char k[16], v[16]; memcpy(k, keyp.data(), 16); memcpy(v, ivp.data(), 16);
+    AesFactory f(k); f.loadiv(v);
+    std::vector<Aesmode *> ms; for (int i = 0; i < n; i++) ms.push_back(f.createCryMaster(enc, (u8_t)t));
+    std::vector<bytes> in(n), out(n);
+    for (int i = 0; i < n; i++) { in[i] = rng.buf(16 * nb); if (rng.below(3) == 0) std::fill(in[i].begin(), in[i].begin() + 16, 0); out[i] = in[i]; }
+    trace_case(suite, "interleaved streams type=" + S(t) + " n=" + S(n) + " key=" + hex(keyp) + " iv=" + hex(ivp));
+    for (int b = 0; b < nb; b++) for (int i = 0; i < n; i++) { int j = (i + b) % n; alignas(16) unsigned char raw[40]; unsigned char *blk = raw + (rep % 2 ? 1 + (b + i) % 15 : 0); memcpy(blk, &out[j][16 * b], 16); ms[j]->runcry(blk); memcpy(&out[j][16 * b], blk, 16); }
+    for (int i = 0; i < n; i++) { std::string req = std::string(enc ? "e " : "d ") + S(t) + " " + hex(keyp) + " " + hex(ivp) + " " + hex(in[i]); emitM(suite, "mode " + req, hex(out[i])); emitO(suite, "smode " + req, hex(out[i])); delete ms[i]; }
+  }
   long extra = tier_thorough() ? 3000 : 150;
   for (long i = 0; i < extra; i++) { bytes all = rng.buf(16 * rng.below(12)); mode_case(suite, rng.below(5), rng.buf(16), rng.buf(16), split_segs(rng, all)); }
   if (tier_thorough()) { // a stream crossing 2^16 blocks with a counter about to carry through several bytes
@@ -180,6 +231,18 @@ static void suite_hash(Rng &rng) {
   for (int alg = 0; alg < 3; alg++) for (int n = 0; n <= 257; n++) hash_string_case(alg, rng.buf(n));
   for (int alg = 0; alg < 3; alg++) { hash_string_case(alg, bytes()); bytes a(3); a[0] = 'a'; a[1] = 'b'; a[2] = 'c'; hash_string_case(alg, a); }
   hash_string_case(3, bytes(5, 1)); // unknown type: factory returns NULL
+  // one hasher object used for several messages in a row, memory and file entry points mixed: every digest as if the object were new
+  for (int alg = 0; alg < 3; alg++) for (int rep = 0; rep < (tier_thorough() ? 40 : 6); rep++) {
+    HashFactory hf; Hashmaster *h = hf.getHasher(hf.getType((u8_t)alg)); static const unsigned char none = 0;
+    for (int step = 0; step < 5; step++) {
+      bytes m = rng.buf(step == 0 ? 56 + rng.below(10) : rng.below(150)); unsigned char out[64];
+      trace_case("hash", "reused hasher alg=" + S(alg) + " step=" + S(step) + " m=" + hex(m));
+      if ((rep + step) % 2 == 0 || HB > 64) { h->getStringHash(m.empty() ? &none : m.data(), (u32_t)m.size(), out); }
+      else { MemFile mf(m); FILE *fp = mf.openr(); filebuffer64 *buf = new filebuffer64(fp, [](std::string, size_t) {}, NULL); h->getFileHash(buf, out); delete buf; fclose(fp); }
+      std::string r = hex(out, h->gethlen()); emitM("hash", "hash " + S(alg) + " " + hex(m), r); emitO("hash", "shash " + S(alg) + " " + hex(m), r);
+    }
+    delete h;
+  }
   // file entry point through the real filebuffer64 with refill size HB units: all lengths around the refill boundaries
   if (HB <= 64) {
     std::vector<long> lens;
@@ -192,6 +255,31 @@ static void suite_hash(Rng &rng) {
       if (n >= 3) { size_t pos = 1 + rng.below((uint32_t)std::min<long>(n - 1, 70)); hash_file_case(alg, f, pos, rng.below(2) ? &pre : NULL); }
     }
   }
+}
+
+// digests must not depend on what other threads hash at the same time (each thread has its own hasher object and its own data)
+#include <thread>
+#include <atomic>
+static void suite_hashmt(Rng &rng) {
+  const int NT = 8; const int NM = 24;
+  std::vector<bytes> msgs; for (int i = 0; i < NM; i++) msgs.push_back(rng.buf(i < 12 ? 50 + i : (i * 11) % 140));
+  std::vector<std::string> want[3];
+  for (int alg = 0; alg < 3; alg++) for (auto &m : msgs) { std::string r = real_string_hash(alg, m); want[alg].push_back(r); emitO("hashmt", "shash " + S(alg) + " " + hex(m), r); }
+  std::atomic<long> total(0), bad(0); std::atomic<int> firstbad_alg(-1), firstbad_msg(-1);
+  double secs = tier_thorough() ? 6.0 : 1.0;
+  auto t0 = std::chrono::steady_clock::now();
+  std::vector<std::thread> th;
+  for (int t = 0; t < NT; t++) th.emplace_back([&, t]() {
+    HashFactory hf; Hashmaster *h[3]; for (int a = 0; a < 3; a++) h[a] = hf.getHasher(hf.getType((u8_t)a));
+    static const unsigned char none = 0; unsigned char out[64]; long n = 0;
+    while (std::chrono::duration<double>(std::chrono::steady_clock::now() - t0).count() < secs) {
+      for (int a = 0; a < 3; a++) for (int i = 0; i < NM; i++) { const bytes &m = msgs[(i + t) % NM];
+        h[a]->getStringHash(m.empty() ? &none : m.data(), (u32_t)m.size(), out); n++;
+        if (hex(out, h[a]->gethlen()) != want[a][(i + t) % NM]) { bad++; int e = -1; if (firstbad_alg.compare_exchange_strong(e, a)) firstbad_msg = (i + t) % NM; } } }
+    total += n; for (int a = 0; a < 3; a++) delete h[a]; });
+  for (auto &x : th) x.join();
+  if (bad > 0) emitA("hashmt", "C07", S(bad) + " of " + S(total) + " digests computed while other threads were hashing differ from the digest of the same message computed alone; first: alg=" + S(firstbad_alg) + " msg=" + hex(msgs[firstbad_msg]) + " (" + S(NT) + " threads, one hasher object per thread)");
+  emitI("hashmt", "concurrent_digests", S(total));
 }
 
 // ---------------- C08 ----------------
@@ -215,7 +303,11 @@ static void suite_hmac(Rng &rng) {
     emitO(suite, "shmac " + S(h) + " " + hex(key) + " " + hex(msg), r);
     // comparison: equal tag accepted; a tag differing in exactly one bit rejected, at every bit position (sampled per case, complete over the suite)
     unsigned char stored[64]; memset(stored, 0, 64); memcpy(stored, tag, hlen);
-    auto cmp = [&](const unsigned char *st) { MemFile mf(file); FILE *fp = mf.openr(); fseek(fp, (long)pos, SEEK_SET); hmac hm; bool ok = hm.cmphmac((u8_t)h, k, fp, st); fclose(fp); return ok; };
+    unsigned noise = 0;
+    auto cmp = [&](const unsigned char *st) {
+      // now and then the correct tag is checked (successfully) or another tag is computed with a related key just before: no effect allowed
+      if (++noise % 4 == 0) { MemFile mf0(file); FILE *f0 = mf0.openr(); fseek(f0, (long)pos, SEEK_SET); hmac h0; if (noise % 8 == 0) { unsigned char t0[64]; alignas(16) unsigned char k0[16]; memcpy(k0, k, 16); k0[noise % 16] ^= 1; h0.gethmac((u8_t)h, k0, f0, t0); } else if (!h0.cmphmac((u8_t)h, k, f0, stored)) emitA("cmp", "C08", "equal tag rejected on a repeated check h=" + S(h)); fclose(f0); }
+      MemFile mf(file); FILE *fp = mf.openr(); fseek(fp, (long)pos, SEEK_SET); hmac hm; bool ok = hm.cmphmac((u8_t)h, k, fp, st); fclose(fp); return ok; };
     bool ok = cmp(stored);
     emitM("cmp", "cmp " + S(h) + " " + S(HB) + " " + hex(key) + " " + hex(file) + " " + S((long)pos) + " " + hex(stored, 64), ok ? "1" : "0");
     if (!ok) emitA("cmp", "C08", "equal tag rejected h=" + S(h) + " key=" + hex(key) + " msg=" + hex(msg));
@@ -315,6 +407,7 @@ int main(int argc, char **argv) {
   if (which == "aes" || which == "all") suite_aes(rng);
   if (which == "mode" || which == "all") suite_mode(rng);
   if (which == "hash" || which == "all") suite_hash(rng);
+  if (which == "hashmt") suite_hashmt(rng);
   if (which == "hmac" || which == "all") suite_hmac(rng);
   if (which == "b64" || which == "all") suite_b64(rng);
   fflush(g_proto);
